@@ -70,7 +70,7 @@ PROPS = {
     "C14": {
         "module": "MiniMcmcVerif.Props.C14Nuts",
         "obligations": ["MiniMcmcVerif.NUTS.Gen." + n for n in ["buildTree_prime_mem", "buildTree_sel_suffix", "buildTree_leaves_chain", "buildTree_prime_admissible", "doubling_inv",
-                                                                "transition_next_state", "nuts_transition_never_bad", "unifLaws_field", "unifLaws_xr"]] + ["MiniMcmcVerif.MH.mh_reject_bad", "MiniMcmcVerif.MH.mh_reject_nan", "MiniMcmcVerif.MH.mh_never_bad",
+                                                                "transition_next_state", "nuts_transition_never_bad", "iterate_logp", "nuts_transition_good_position", "unifLaws_field", "unifLaws_xr"]] + ["MiniMcmcVerif.MH.mh_reject_bad", "MiniMcmcVerif.MH.mh_reject_nan", "MiniMcmcVerif.MH.mh_never_bad",
                         "MiniMcmcVerif.HMC.hmc_never_bad", "MiniMcmcVerif.HMC.hmc_row_mem",
                         "MiniMcmcVerif.NUTS.nuts_admissible_not_bad", "MiniMcmcVerif.NUTS.nuts_nan_joint",
                         "MiniMcmcVerif.XR.xr_satisfies_laws", "MiniMcmcVerif.XR.xr_satisfies_lawsE"],
@@ -80,7 +80,8 @@ PROPS = {
                       "rejected for every u; an HMC row whose end-of-trajectory density is NaN/-inf stays at x for every draw except ln u = -inf (u = 0, excepted by the property), whatever the energies — divergent trajectories, NaN gradients "
                       "and overflowing step sizes included — and a row is never a blend; a NUTS point that passes the slice test has a density that is neither NaN nor -inf, and a NaN joint fails both the slice and the divergence test; at the level of the whole NUTS transition (arbitrary carrier: the structural lemmas and the loop invariant are re-proved from the notation classes "
                       "alone plus three facts about uniforms in [0,1) — u is never < 0/n, u < n/n, u is never < min(1, 0/n) for n >= 1 — which hold on ordered fields and on XR where 0/0 = NaN): a transition that terminates ends at "
-                      "the start position or at a point of the leapfrog trajectory through it whose log-density is neither NaN nor -inf. XR (NaN | -inf | Q | +inf) "
+                      "the start position or at a point of the leapfrog trajectory through it whose log-density is neither NaN nor -inf — hence, if the target assigns NaN / -inf to every position outside a set Good (finite "
+                      "coordinates inside the support), at the start position or in Good (nuts_transition_good_position). XR (NaN | -inf | Q | +inf) "
                       "satisfies the laws. Tied to the code by running MH/HMC/NUTS on targets with boundaries and NaN regions, proposals leaving the support and step sizes up to 1e300, judging every visited state with the harness's own f64 "
                       "copy of the target, under a watchdog; HMC rows and NUTS transitions are additionally replayed against the models; the law table is evaluated on native f32/f64 on every run.",
         "level_note": "Trusted: hardware floats satisfy the listed laws (spot-checked natively each run). Absence of hangs/panics is observed (watchdog, catch_unwind), not proved; find_reasonable_epsilon need not terminate on improper flat "
